@@ -13,7 +13,7 @@ func C17_read_results() {
 	key := [4]byte{vU8("k0"), vU8("k1"), vU8("k2"), vU8("k3")}
 	switch vChoose("what", 3) {
 	case 0: // ClosedError.Reason from ControlHandler
-		reason := vBytes("reason", 3)
+		reason := vBytes("reason", []int{3, 70, 123}[vChoose("rlen", 3)])
 		for _, c := range reason {
 			vAssume(c < 0x80)
 		}
@@ -29,8 +29,10 @@ func C17_read_results() {
 		}
 		vAssert(vEqBytes([]byte(ce.Reason), reason), "alias.reason_survives_pool_reuse")
 	case 1: // ReadMessage payloads (data and intermediate control)
-		p := vBytes("p", 3)
-		q := vBytes("q", 2)
+		// sizes on both sides of the byte pool's smallest class (128): small buffers are plain
+		// allocations, larger ones are recycled
+		p := vBytes("p", []int{3, 130}[vChoose("plen", 2)])
+		q := vBytes("q", []int{2, 65, 125}[vChoose("qlen", 3)])
 		wire := vEncode(vFrame{fin: false, op: 2, masked: server, key: key, payload: p})
 		wire = append(wire, vEncode(vFrame{fin: true, op: 9, masked: server, key: key, payload: q})...)
 		wire = append(wire, vEncode(vFrame{fin: true, op: 0, masked: server, key: key, payload: nil})...)
@@ -43,11 +45,11 @@ func C17_read_results() {
 		}
 		vAssert(vAnd(vEqBytes(ms[0].Payload, q), vEqBytes(ms[1].Payload, p)), "alias.messages_survive_pool_reuse")
 	case 2: // readData payload + a ping answered on the way (pooled pong buffer)
-		p := vBytes("p", 3)
+		p := vBytes("p", []int{3, 130}[vChoose("plen", 2)])
 		for _, c := range p {
 			vAssume(c < 0x80)
 		}
-		wire := vEncode(vFrame{fin: true, op: 9, masked: server, key: key, payload: []byte("ping")})
+		wire := vEncode(vFrame{fin: true, op: 9, masked: server, key: key, payload: append([]byte("ping"), make([]byte, []int{0, 96}[vChoose("pinglen", 2)])...)})
 		wire = append(wire, vEncode(vFrame{fin: true, op: 1, masked: server, key: key, payload: p})...)
 		rw := &vRW{vSrc: vNewSrc(wire, 0, "chunk")}
 		got, _, err := readData(rw, vSide(server), ws.OpText)
